@@ -3,20 +3,29 @@
 translate  tx/tx_c13.py re-extracts every literal table of the cloning / naming / inheritance
            code from the current tree of /repo into coq/gen/GenC13.v
 prove      props/C13.v over model/Placeholder.v (generic in the tables, instantiated on gen)
+           and over model/PlaceholderPkg.v (the slide list: part identity vs part name, the relationship
+           table of the presentation part, p:sldIdLst; add / edit / delete / save and re-open)
 correspond the extracted model (run_c13) against python-pptx on every layout of every .pptx
            under /repo and on generated populations of the master, a layout and the notes
            master of the default template, over operation histories (add_slide repeatedly,
            shapes.clone_placeholder on slides that already hold shapes, notes_slide, geometry setters on slide / layout / master / notes / notes master (first assignments to inheriting placeholders included), xfrm removal,
-           renames that collide with future placeholder names, deletions, text boxes, and a
-           malformed stream of out-of-range indices and values)
+           renames that collide with future placeholder names, deletions, text boxes, a
+           malformed stream of out-of-range indices and values; deleting the first / a middle / the last
+           slide by the usual recipe (drop_rel + p:sldId, or the p:sldId alone), saving and re-opening inside
+           histories, start decks whose slide part names are out of order / have gaps / that hold related but
+           unlisted slide parts, with the renaming done by the first access of prs.slides)
 oracle     the property's own statement evaluated on the real XML and on what the public API
-           reports, independent of the model.
+           reports, independent of the model; for the slide list on the objects themselves (after add_slide
+           prs.slides[-1] is the returned slide, every earlier position designates the same part object,
+           ids / rIds distinct, exactly one relationship more; after save + re-open same slides).
 """
 import glob
 import io
 import json
 import multiprocessing
 import os
+import warnings
+import zipfile
 
 from corr.harness import COQ, REPO, VERIF, _run, coq_build, exc_name, run_model
 
@@ -25,14 +34,20 @@ A = "{http://schemas.openxmlformats.org/drawingml/2006/main}"
 MAXC = 27273042316900
 MINC = -27273042329600
 ATTRS = ("left", "top", "width", "height")
+R_ID = "{http://schemas.openxmlformats.org/officeDocument/2006/relationships}id"
+MARK = "verif-new"      # p:cSld/@name of the slides a history creates: they are shown in full, before and after re-opening
 
 TB = [
+    "model/PlaceholderPkg.v reuses the allocators and relationship functions of model/Ids.v and model/PkgOps.v (next_rId, next_slide_id_Z, next_slide_partname / next_partname, rename_slide_parts, get_or_add by target identity, pop_rel, related_part) and Opc.rid_leb / sort_by for the order relationships are written in; XmlPart._rel_ref_count, OpcPackage.iter_parts restricted to the parts related from the presentation part, and the zip reader's last-member-wins are transcribed by hand (exercised by the correspondence)",
+    "the deletion recipes (R: prs.part.drop_rel(sldId.rId) + sldIdLst.remove(sldId); U: sldIdLst.remove(sldId) alone) and save + re-open (S: prs.save to memory, Presentation(bytes), first access of prs.slides) are harness code; slides a history creates are marked with p:cSld/@name so that they can be told from the deck's own after re-opening",
     "tx/tx_c13.py (translator: tuple / dict literals inside functions read from the AST, enum members and p:ph defaults from the live classes, template trees from the live constructors); fail-closed via n_unmodelled",
     "lxml xpath //@id and //p:cNvPr/@name, str %-formatting of '%s %d', python sorted() stability and list membership are modelled in model/Placeholder.v (tied by this correspondence, not verified)",
     "ST_Coordinate / ST_PositiveCoordinate ranges, the TextBox base name, and the dict order (left, top, width, height) and evaluation order of _InheritsDimensions._set_dimension together with which proxy class each collection hands out are transcribed by hand in the model (exercised by the correspondence)",
     "the oracle reads p:ph attributes and a:xfrm with raw lxml calls and applies the schema defaults (type obj, idx 0, orient horz, sz full) itself",
 ]
 ASSUME = [
+    "slide list: every reachable part whose name begins like a slide part name is related from the presentation part itself, and no slide part is related from another slide part (true of all 67 decks under /repo; a deck with such a link gets no save steps), so that the parts OpcPackage.iter_parts meets with such names and the order the writer meets them are those of the presentation part's relationships",
+    "slide list: histories of ONE session keep rIds, slide ids and listed parts distinct and no two reachable parts share a name, so saving loses nothing (C13_pkg_history_invariant, C13_pkg_history_save, since repair 086e8ef1 of _next_slide_partname); across sessions this needs that no related slide part is unlisted (C13_pkg_history_all_sessions): rename_slide_parts on the first access of prs.slides does not look at unlisted parts, and a deck that holds one (p:sldId removed with the relationship kept, a failed add_slide, a start deck made that way) can lose a listed slide at the save after the next re-opening -- modelled exactly (C13_pkg_unlisted_collision_refuted), tied by the correspondence, and reported by the oracle under the root cause recorded for C06, signature unlisted-slide-partname-collision",
     "placeholders on layouts, masters and notes masters are p:sp elements (true of all 67 decks under /repo); a p:pic or p:graphicFrame carrying p:ph on a layout is outside the model and such decks are skipped and counted",
     "every layout part is related to the slide master that lists it (tests/test_files/missing_rels_item.pptx is a deliberately damaged package whose layout has no .rels item: skipped and counted)",
     "inheritance follows the idx link: the layout counterpart of a slide placeholder is the FIRST layout placeholder with the same idx; with duplicate idx values in one layout (e.g. two placeholders without idx attribute) later clones report the geometry of the first, theorem C13_inherit_dup_idx_refuted; the oracle judges those cases against the first match and counts them (class dup-idx)",
@@ -73,6 +88,45 @@ def deck_bytes(path):
         with open(path if path != "default" else REPO + "/src/pptx/templates/default.pptx", "rb") as f:
             _BYTES[path] = f.read()
     return _BYTES[path]
+
+
+_PREP = {}
+
+
+def start_bytes(case):
+    """The file a history starts from.  case[prep] describes an irregular start deck made from case[deck]:
+    add  -- layouts to add slides from (these slides are opaque to the model, like the deck's own),
+    names -- the number in the part name of every listed slide, in presentation order (out of order, with gaps),
+    unlist -- positions whose p:sldId is removed while the relationship stays (related, unlisted slide parts)."""
+    prep = case.get("prep")
+    if not prep:
+        return deck_bytes(case["deck"])
+    key = (case["deck"], json.dumps(prep, sort_keys=True))
+    if key not in _PREP:
+        from pptx import Presentation
+        from pptx.opc.packuri import PackURI
+
+        prs = Presentation(io.BytesIO(deck_bytes(case["deck"])))
+        lays = [l for m in prs.slide_masters for l in m.slide_layouts]
+        for l in prep.get("add", []):
+            prs.slides.add_slide(lays[l])
+        parts = [sl.part for sl in prs.slides]
+        if prep.get("names"):
+            assert len(prep["names"]) == len(parts) and len(set(prep["names"])) == len(parts)
+            for part, n in zip(parts, prep["names"]):
+                part.partname = PackURI("/ppt/slides/slide%d.xml" % n)
+        lst = prs.part._element.sldIdLst
+        for i in sorted(prep.get("unlist", []), reverse=True):
+            lst.remove(lst.sldId_lst[i])
+        buf = io.BytesIO()
+        prs.save(buf)
+        assert len(set(zipfile.ZipFile(io.BytesIO(buf.getvalue())).namelist())) == len(zipfile.ZipFile(io.BytesIO(buf.getvalue())).namelist())
+        _PREP[key] = buf.getvalue()
+    return _PREP[key]
+
+
+def dotted(text):
+    return ".".join(str(ord(ch)) for ch in text)
 
 
 # ----------------------------------------------------------------------------- raw XML reading
@@ -193,12 +247,11 @@ class Deck:
         from pptx.opc.constants import RELATIONSHIP_TYPE as RT
 
         self.RT = RT
-        self.prs = Presentation(io.BytesIO(deck_bytes(case["deck"])))
+        self.Presentation = Presentation
+        self.prs = Presentation(io.BytesIO(start_bytes(case)))
         prs = self.prs
         pop = case.get("pop") or {}
-        self.masters = list(prs.slide_masters)
-        self.layouts = [l for m in self.masters for l in m.slide_layouts]
-        self.layout_master = [mi for mi, m in enumerate(self.masters) for _ in m.slide_layouts]
+        self.bind()
         if pop.get("master") is not None:
             populate(self.masters[0]._element.cSld.spTree, pop["master"])
         if pop.get("layout") is not None:
@@ -206,11 +259,64 @@ class Deck:
             populate(self.layouts[li]._element.cSld.spTree, specs)
         if pop.get("nm") is not None:
             populate(prs.notes_master._element.cSld.spTree, pop["nm"])
-        self.slides0 = [s.part for s in prs.slides]
-        self.new_parts = []          # slide parts created during the case (objects)
         self.cache = {}
-        sld_rids = {s.rId for s in prs.part._element.get_or_add_sldIdLst()}
-        self.rels0 = {rid for rid, r in prs.part.rels.items() if r.reltype == RT.SLIDE and rid not in sld_rids}
+        # the presentation part as the file has it, before the first access of prs.slides renames anything
+        self.pkg0 = self.pkg_fields()
+        try:
+            len(list(prs.slides))
+            self.load_error = None
+        except Exception as e:  # noqa
+            self.load_error = "err:" + exc_name(e)
+
+    def bind(self):
+        """Masters and layouts of the presentation object at hand (again after re-opening)."""
+        prs = self.prs
+        self.masters = list(prs.slide_masters)
+        self.layouts = [l for m in self.masters for l in m.slide_layouts]
+        self.layout_master = [mi for mi, m in enumerate(self.masters) for _ in m.slide_layouts]
+
+    def slide_rels(self):
+        """(rId, target part) of the internal slide relationships of the presentation part, dict order."""
+        return [(rid, r.target_part) for rid, r in self.prs.part.rels.items()
+                if r.reltype == self.RT.SLIDE and not r.is_external]
+
+    def canon(self):
+        """Slide parts numbered by first occurrence among the slide relationships: object identity up to renaming."""
+        out = []
+        for _, p in self.slide_rels():
+            if not any(p is q for q in out):
+                out.append(p)
+        return out
+
+    def sld_ids(self):
+        lst = self.prs.part._element.sldIdLst
+        return [] if lst is None else list(lst.sldId_lst)
+
+    def pkg_fields(self):
+        from pptx.parts.slide import SlidePart
+
+        pp = self.prs.part
+        parts, rels = [], []
+        for rid, r in pp.rels.items():
+            if r.is_external:
+                rels.append("%s,x,-" % dotted(rid))
+                continue
+            t = r.target_part
+            k = next((i for i, q in enumerate(parts) if q is t), None)
+            if k is None:
+                k = len(parts)
+                parts.append(t)
+            cls = "s" if r.reltype == self.RT.SLIDE else "n" if r.reltype == self.RT.NOTES_MASTER else "o"
+            rels.append("%s,%s,%d" % (dotted(rid), cls, k))
+        pf = []
+        for t in parts:
+            kind = "-"
+            if isinstance(t, SlidePart):
+                kind = str(self.layout_index(t.slide_layout.part))
+            pf.append("%s,%s" % (kind, dotted(str(t.partname))))
+        ids = ["%d,%s" % (int(e.get("id")), dotted(e.rId)) for e in self.sld_ids()]
+        xr = [dotted(el.get(R_ID)) for el in pp._element.iter() if el.tag != P + "sldId" and isinstance(el.tag, str) and el.get(R_ID) is not None]
+        return ";".join([" ".join(pf), " ".join(rels), " ".join(ids), " ".join(xr)])
 
     # ---- structure
     def modelable(self):
@@ -246,10 +352,9 @@ class Deck:
         ms = "/".join(";".join(shape_field(e) for e in ph_sps(m._element.cSld.spTree)[0]) for m in self.masters)
         ls = "/".join(";".join([str(self.layout_master[i])] + [shape_field(e) for e in ph_sps(l._element.cSld.spTree)[0]])
                       for i, l in enumerate(self.layouts))
-        ss = " ".join(str(self.layout_index(p.slide_layout.part)) for p in self.slides0)
         nm = self.notes_master_part()
         nmf = "-" if nm is None else ";".join(shape_field(e) for e in ph_sps(nm._element.cSld.spTree)[0])
-        return ["run", ms, ls, ss, nmf]
+        return ["run", ms, ls, self.pkg0, nmf]
 
     # ---- observation (same text as PlaceholderRun.show_deck)
     @staticmethod
@@ -270,10 +375,20 @@ class Deck:
         return ",".join([str(shape.shape_id), " ".join(str(ord(c)) for c in shape.name), key,
                          "1" if el.find(P + "txBody") is not None else "0"] + [self.geom(shape, a) for a in ATTRS])
 
+    @staticmethod
+    def is_new(part):
+        return part._element.cSld.get("name") == MARK
+
+    def mark_new_parts(self, known):
+        """Mark every slide part the presentation part is related to now and was not before."""
+        for _, p in self.slide_rels():
+            if not any(p is q for q in known) and hasattr(p, "slide"):
+                p._element.cSld.set("name", MARK)
+
     def show_slide(self, part):
         slide = part.slide
         li = self.layout_index(part.slide_layout.part)
-        if not any(part is p for p in self.new_parts):
+        if not self.is_new(part):
             return "%d:::-" % li
         shapes = ";".join(self.show_shape(s) for s in slide.shapes)
         order = " ".join(str(p.shape_id) for p in slide.placeholders)
@@ -282,11 +397,14 @@ class Deck:
             notes = ";".join(self.show_shape(s) for s in slide.notes_slide.shapes)
         return "%d:%s:%s:%s" % (li, shapes, order, notes)
 
-    def orphan_rels(self):
-        prs = self.prs
-        listed = {s.rId for s in prs.part._element.get_or_add_sldIdLst()}
-        return [r for rid, r in prs.part.rels.items()
-                if r.reltype == self.RT.SLIDE and rid not in listed and rid not in self.rels0]
+    def show_pkg(self):
+        canon = self.canon()
+        num = lambda p: next(i for i, q in enumerate(canon) if q is p)  # noqa: E731
+        ids = ",".join("%d %s" % (int(e.get("id")), e.rId) for e in self.sld_ids())
+        rels = ",".join(rid + (">%d" % num(r.target_part) if (r.reltype == self.RT.SLIDE and not r.is_external) else "")
+                        for rid, r in self.prs.part.rels.items())
+        names = ",".join(str(p.partname) for p in canon)
+        return ";".join([ids, rels, names])
 
     def show(self):
         """Whole observable state.  Pieces are cached and recomputed only when an operation may
@@ -301,19 +419,45 @@ class Deck:
                 c[k] = f()
             return c[k]
 
-        slides = "!".join(memo("s", id(s.part), lambda: self.show_slide(s.part)) for s in prs.slides)
-        orph = "!".join("%d:%s" % (r.target_part.partname.idx, self.show_slide(r.target_part)) for r in self.orphan_rels())
+        def slide_text(part):
+            # keyed by the object: the entry keeps the part alive, so the id of a deleted slide part (garbage once
+            # its relationship is dropped) cannot come back as the id of a new one
+            hit = c.get(("s", id(part)))
+            if hit is None or hit[0] is not part:
+                hit = c[("s", id(part))] = (part, self.show_slide(part))
+            return hit[1]
+
+        def entry(e):
+            try:
+                part = prs.part.related_part(e.rId)
+                part.slide
+            except Exception as x:  # noqa
+                return "?" + exc_name(x)
+            return slide_text(part)
+
+        def orphan(k, p):
+            if not hasattr(p, "slide"):
+                return "%d:?" % k
+            return "%d:%s" % (k, slide_text(p))
+
+        slides = "!".join(entry(e) for e in self.sld_ids())
+        listed = {e.rId for e in self.sld_ids()}
+        canon = self.canon()
+        orph = "!".join(orphan(next(i for i, q in enumerate(canon) if q is p), p) for rid, p in self.slide_rels() if rid not in listed)
         lays = "!".join(memo("l", i, lambda: ";".join(self.show_shape(p) for p in l.placeholders)) for i, l in enumerate(self.layouts))
         mas = "!".join(memo("m", i, lambda: ";".join(self.show_shape(p) for p in m.placeholders)) for i, m in enumerate(self.masters))
         nm = self.notes_master_part()
         nms = "-" if nm is None else memo("k", 0, lambda: ";".join(self.show_shape(p) for p in nm.notes_master.placeholders))
-        return "|".join([slides, orph, lays, mas, nms])
+        return "|".join([slides, orph, lays, mas, nms, self.show_pkg()])
 
     def invalidate(self, op):
         toks = op.split(" ")
         c = self.cache
         kinds = set()
-        if toks[0] == "A":
+        if toks[0] in ("A", "R", "U"):
+            return
+        if toks[0] == "S":
+            c.clear()
             return
         if toks[0] in ("X", "P") or (toks[0] == "E" and toks[1] in ("s", "n")):
             try:
@@ -333,6 +477,24 @@ class Deck:
             kinds = {"s", "k"}
         for k in [k for k in c if k[0] in kinds]:
             del c[k]
+
+    def targets_opaque(self, op):
+        toks = op.split(" ")
+        if toks[0] in ("N", "X", "P"):
+            i = int(toks[1])
+        elif toks[0] == "E" and toks[1] in ("s", "n"):
+            i = int(toks[2])
+        else:
+            return False
+        ids = self.sld_ids()
+        if i >= len(ids):
+            return False
+        try:
+            part = self.prs.part.related_part(ids[i].rId)
+            part.slide
+        except Exception:  # noqa
+            return False
+        return not self.is_new(part)
 
     # ---- operations
     def target(self, k, a, b):
@@ -361,19 +523,42 @@ class Deck:
                 l = int(toks[1])
                 layout = self.layouts[l]
                 before = oracle.snapshot(self) if oracle else None
-                n0 = len(prs.part.rels)
+                known = [p for _, p in self.slide_rels()]
                 try:
                     slide = prs.slides.add_slide(layout)
                 except Exception as e:  # noqa
-                    for r in list(prs.part.rels.values())[n0:]:
-                        if r.reltype == self.RT.SLIDE:
-                            self.new_parts.append(r.target_part)
+                    self.mark_new_parts(known)
                     if oracle:
                         oracle.add_failed(self, l, layout, e, op)
                     raise
-                self.new_parts.append(slide.part)
+                slide.part._element.cSld.set("name", MARK)
+                self.mark_new_parts(known)
                 if oracle:
                     oracle.added(self, l, layout, slide, before, op)
+            elif toks[0] in ("R", "U"):
+                i = int(toks[1])
+                lst = prs.part._element.sldIdLst
+                sldId = lst.sldId_lst[i]           # IndexError when there is no such slide
+                before = oracle.snapshot(self) if oracle else None
+                if toks[0] == "R":
+                    prs.part.drop_rel(sldId.rId)
+                lst.remove(sldId)
+                if oracle:
+                    oracle.removed(self, i, toks[0] == "R", before, op)
+            elif toks[0] == "S":
+                state = oracle.listing_state(self) if oracle else None
+                buf = io.BytesIO()
+                with warnings.catch_warnings():
+                    warnings.simplefilter("ignore")
+                    prs.save(buf)
+                self.prs = self.Presentation(io.BytesIO(buf.getvalue()))
+                prs = self.prs
+                self.bind()
+                self.cache.clear()
+                len(list(prs.slides))
+                if oracle:
+                    oracle.reopened(self, state, buf.getvalue(), op)
+                    oracle.first_access(self, op)
             elif toks[0] == "N":
                 sl = prs.slides[int(toks[1])]
                 had = sl.has_notes_slide
@@ -429,15 +614,28 @@ def run_impl(case, oracle=None):
     d = Deck(case)
     if not d.modelable():
         return None, None
-    fields = d.model_fields() + list(case["ops"])
+    fields = d.model_fields()
+    if d.load_error:
+        return fields + list(case["ops"]), d.load_error
+    if oracle:
+        oracle.first_access(d, "<load>")
     outs = ["ok:@" + d.show()]
+    done = []
     for op in case["ops"]:
+        if d.targets_opaque(op):
+            # the position designates a slide the deck brought along (its shapes are outside the model; the generator
+            # aims at new slides, but a name collision with an unlisted part can put other content behind a position
+            # at re-opening): the history ends here, model and implementation both run the operations before it
+            if oracle:
+                oracle.classes.add("history-cut-at-an-operation-on-an-opaque-slide")
+            break
         r = d.apply(op, oracle)
         d.invalidate(op)
         outs.append(r + "@" + d.show())
+        done.append(op)
     if oracle:
         oracle.finish(d)
-    return fields, "#".join(outs)
+    return fields + done, "#".join(outs)
 
 
 # ----------------------------------------------------------------------------- oracle
@@ -479,16 +677,160 @@ class Oracle:
         rels = sorted((rid, r.reltype, r.target_ref, r.is_external) for rid, r in part.rels.items())
         return etree.tostring(part._element), rels
 
+    @staticmethod
+    def listing(d):
+        """The part every p:sldId designates (None when it does not resolve), with the ids."""
+        pp = d.prs.part
+        parts = []
+        for e in d.sld_ids():
+            try:
+                parts.append(pp.related_part(e.rId))
+            except Exception:  # noqa
+                parts.append(None)
+        return parts, [int(e.get("id")) for e in d.sld_ids()], [e.rId for e in d.sld_ids()]
+
     def snapshot(self, d):
-        parts = [s.part for s in d.prs.slides] + [l.part for l in d.layouts] + [m.part for m in d.masters]
-        return [(p, self.ser(p)) for p in parts]
+        listed, ids, rids = self.listing(d)
+        uniq = []
+        for p in listed:
+            if p is not None and not any(p is q for q in uniq):
+                uniq.append(p)
+        parts = uniq + [l.part for l in d.layouts] + [m.part for m in d.masters]
+        rels = [(rid, r.reltype, r.is_external, r.target_ref if r.is_external else r.target_part) for rid, r in d.prs.part.rels.items()]
+        names = [None if p is None else str(p.partname) for p in listed]
+        if names != ["/ppt/slides/slide%d.xml" % (k + 1) for k in range(len(names))]:
+            self.classes.add("operation-on-slide-list-with-gap-or-disorder-in-part-names")
+        return {"parts": [(p, self.ser(p)) for p in parts], "listed": listed, "ids": ids, "rids": rids, "rels": rels}
 
     def frame(self, d, before, op, what, allow=()):
-        for p, s in before:
+        for p, s in before["parts"]:
             if any(p is a for a in allow):
                 continue
             if self.ser(p) != s:
                 self.bad("%s:frame" % what, "%s changed another part (%s)" % (what, p.partname), op, {"part": str(p.partname)})
+
+    def deck_level(self, d, before, slide, op):
+        """The slide-list part of the statement, on the objects themselves: the returned slide is the last entry,
+        the list grew by one, every earlier position designates the same part object, the new part is a new
+        object, slide ids and r:ids are distinct, and the presentation part gained exactly one relationship
+        (to the new part) and lost none."""
+        listed, ids, rids = self.listing(d)
+        n0 = len(before["listed"])
+        if len(listed) != n0 + 1 or len(d.prs.slides) != n0 + 1:
+            self.bad("add_slide:not-last", "len(prs.slides) went from %d to %d on add_slide" % (n0, len(listed)), op)
+            return
+        if listed[-1] is not slide.part or d.prs.slides[n0].part is not slide.part:
+            last = listed[-1]
+            self.bad("add_slide:not-last", "the slide add_slide returned (%s) is not the last of prs.slides; the last p:sldId (id %d, %s) designates %s"
+                     % (slide.part.partname, ids[-1], rids[-1], "nothing" if last is None else "the part %s that %s" % (
+                         last.partname, "was already listed at position %d" % next(i for i, q in enumerate(before["listed"]) if q is last)
+                         if any(q is last for q in before["listed"]) else "is another object")), op)
+        for i, (a, b) in enumerate(zip(before["listed"], listed)):
+            if a is not b:
+                self.bad("add_slide:displaced", "position %d of prs.slides designates another part after add_slide" % i, op)
+        if ids[:n0] != before["ids"] or rids[:n0] != before["rids"]:
+            self.bad("add_slide:displaced", "the earlier p:sldId entries changed on add_slide", op)
+        if any(q is slide.part for q in before["listed"]) or any((not x) and t is slide.part for _, _, x, t in before["rels"]):
+            self.bad("add_slide:not-new", "add_slide returned a slide part the presentation was already related to", op)
+        if len(set(ids)) != len(ids):
+            self.bad("add_slide:slide-id", "slide ids are not distinct after add_slide: %r" % (ids,), op)
+        if len(set(rids)) != len(rids):
+            self.bad("add_slide:slide-rid", "two p:sldId entries carry the same r:id after add_slide: %r" % (rids,), op)
+        try:
+            if slide.slide_id != ids[-1] or d.prs.slides.index(slide) != n0 or d.prs.slides.get(ids[-1]) is not slide:
+                self.bad("add_slide:not-last", "slide_id / Slides.index / Slides.get do not find the new slide at the last entry", op)
+        except Exception as e:  # noqa
+            self.bad("add_slide:not-last", "slide_id / Slides.index / Slides.get raise %r for the new slide" % (e,), op)
+        self.rels_frame(d, before, op, "add_slide", gone=(), new_target=slide.part)
+
+    def rels_frame(self, d, before, op, what, gone, new_target):
+        now = {rid: (r.reltype, r.is_external, r.target_ref if r.is_external else r.target_part) for rid, r in d.prs.part.rels.items()}
+        for rid, t, x, tgt in before["rels"]:
+            if rid in gone:
+                if rid in now:
+                    self.bad("%s:rels" % what, "relationship %s of the presentation part is still there" % rid, op)
+                continue
+            cur = now.pop(rid, None)
+            if cur is None or cur[0] != t or cur[1] != x or (cur[2] != tgt if x else cur[2] is not tgt):
+                self.bad("%s:rels" % what, "relationship %s of the presentation part was dropped or retargeted by %s" % (rid, what), op)
+        for rid in gone:
+            now.pop(rid, None)
+        extra = sorted(now)
+        if new_target is None:
+            if extra:
+                self.bad("%s:rels" % what, "%s added relationships %r to the presentation part" % (what, extra), op)
+        elif len(extra) != 1 or now[extra[0]][0] != d.RT.SLIDE or now[extra[0]][2] is not new_target:
+            self.bad("%s:rels" % what, "%s did not add exactly one slide relationship to the new part (new: %r)" % (what, extra), op)
+
+    def removed(self, d, i, dropped, before, op):
+        """The deletion recipe (harness code around XmlPart.drop_rel): the other entries keep designating the same
+        parts with the same content."""
+        listed, ids, rids = self.listing(d)
+        want = before["listed"][:i] + before["listed"][i + 1:]
+        if len(listed) != len(want) or any(a is not b for a, b in zip(want, listed)) or ids != before["ids"][:i] + before["ids"][i + 1:]:
+            self.bad("remove:listing", "after deleting slide %d the remaining entries do not designate the same parts" % i, op)
+        rid = before["rids"][i]
+        shared = before["rids"].count(rid) > 1
+        self.rels_frame(d, before, op, "remove", gone=(rid,) if (dropped and not shared) else (), new_target=None)
+        self.frame(d, before, op, "remove")
+
+    @staticmethod
+    def slide_summary(d, part):
+        sl = part.slide
+        tree = sl._element.cSld.spTree
+        shapes = []
+        for e in shape_children(tree):
+            c = raw_cnvpr(e)
+            ph = raw_ph(e)
+            shapes.append((c.get("id"), c.get("name"), None if ph is None else raw_key(ph), raw_xfrm(e) if e.tag in (P + "sp", P + "pic") else None))
+        notes = None
+        if sl.has_notes_slide:
+            notes = [(raw_cnvpr(e).get("name"), None if raw_ph(e) is None else raw_key(raw_ph(e))) for e in shape_children(sl.notes_slide._element.cSld.spTree)]
+        return (d.layout_index(part.slide_layout.part), tuple(shapes), None if notes is None else tuple(notes))
+
+    def listing_state(self, d):
+        listed, ids, rids = self.listing(d)
+        unlisted = [str(p.partname) for rid, p in d.slide_rels() if rid not in rids]
+        return {"ids": ids, "slides": [None if p is None else self.slide_summary(d, p) for p in listed],
+                "names": [None if p is None else str(p.partname) for p in listed], "unlisted": unlisted,
+                "twice": len({id(p) for p in listed}) != len(listed)}
+
+    def first_access(self, d, op):
+        """Right after the first access of prs.slides (loading, re-opening): rename_slide_parts has named the listed
+        slide parts slide1..N.  A slide part that is related to the presentation part without being listed keeps its
+        name; when that name is among 1..N two parts of the package now carry it (the root cause recorded for C06 as
+        unlisted-slide-partname-collision: the rename does not look at the other parts)."""
+        st = self.listing_state(d)
+        hit = sorted(set(st["unlisted"]) & set(n for n in st["names"] if n is not None))
+        if hit:
+            self.bad("unlisted-slide-partname-collision",
+                     "after the first access of prs.slides the listed slide parts are named %r and the related but unlisted slide part(s) %r keep their names: %s is the name of two parts, the next save writes two members of that name and one of the slides is lost on re-open"
+                     % (st["names"], st["unlisted"], ", ".join(hit)), op, {"colliding": hit})
+        return bool(hit)
+
+    def reopened(self, d, state, blob, op):
+        """Saving and re-opening keeps the slide list: same number of slides, same ids, each with the same layout,
+        shapes (id, name, placeholder key, own position and size) and notes placeholders; no part listed twice
+        unless it was before."""
+        now = self.listing_state(d)
+        names = zipfile.ZipFile(io.BytesIO(blob)).namelist()
+        dups = sorted({n for n in names if names.count(n) > 1})
+        if now["ids"] != state["ids"] or now["slides"] != state["slides"] or (now["twice"] and not state["twice"]):
+            lost = [i for i, (a, b) in enumerate(zip(state["slides"], now["slides"])) if a != b]
+            if dups and all(("/" + n) in state["unlisted"] for n in dups if not n.startswith("ppt/slides/_rels/")):
+                # every doubled name is the name of a related, unlisted slide part: the collision reported by first_access
+                self.bad("unlisted-slide-partname-collision",
+                         "the saved package holds two members named %s, the name of a listed slide part and of a related but unlisted one (%r); after re-opening slide(s) %r of %d differ from what was saved"
+                         % (", ".join(dups[:2]), state["unlisted"], lost, len(state["slides"])), op, {"duplicate_members": dups})
+            elif dups:
+                self.bad("save-reopen:duplicate-slide-partname",
+                         "the saved package holds two members named %s: at save time the listed slide parts were named %r; after re-opening slide(s) %r of %d differ from what was saved%s"
+                         % (", ".join(dups[:2]), state["names"], lost, len(state["slides"]),
+                            " and one part is listed twice" if now["twice"] and not state["twice"] else ""), op, {"duplicate_members": dups})
+            else:
+                self.bad("save-reopen:slides-differ", "after save and re-open the slide list differs: ids %r -> %r, slides differing at %r" % (state["ids"], now["ids"], lost), op)
+        elif dups and any(n.startswith("ppt/slides/") for n in dups):
+            self.classes.add("duplicate-member-unlisted")
 
     @staticmethod
     def expected_geom(layout_el, master_tree, dup_first=True):
@@ -509,9 +851,7 @@ class Oracle:
     def added(self, d, l, layout, slide, before, op):
         prs = d.prs
         # last, related
-        slides = list(prs.slides)
-        if not slides or slides[-1].part is not slide.part or len(slides) != len([p for p, _ in before if p.partname.startswith("/ppt/slides/")]) + 1:
-            self.bad("add_slide:not-last", "new slide is not the last of prs.slides", op)
+        self.deck_level(d, before, slide, op)
         lrels = [r for r in slide.part.rels.values() if r.reltype == d.RT.SLIDE_LAYOUT]
         if len(lrels) != 1 or lrels[0].target_part is not layout.part or slide.slide_layout.part is not layout.part:
             self.bad("add_slide:layout-rel", "new slide is not related to the requested layout", op)
@@ -564,7 +904,8 @@ class Oracle:
         t = getattr(e.args[0], "xml_value", None) if e.args else None
         keys = [raw_key(raw_ph(x))[0] for x in ph_sps(layout._element.cSld.spTree)[0]]
         listed = len(d.prs.slides)
-        orphans = [str(r.target_part.partname) for r in d.orphan_rels()]
+        listed_rids = {e.rId for e in d.sld_ids()}
+        orphans = [str(p.partname) for rid, p in d.slide_rels() if rid not in listed_rids]
         self.bad("add_slide-raises-%s:%s" % (exc_name(e), t),
                  "prs.slides.add_slide(layout) raises %r for a layout whose placeholder types are %r; afterwards len(prs.slides) = %d and the presentation part is still related to the unlisted part(s) %r"
                  % (e, keys, listed, orphans), op)
@@ -735,7 +1076,7 @@ def rand_value(rng, attr, malformed):
     return rng.choice([0, -914400, 457200, 1600200, MAXC, MINC])
 
 
-def deck_sizes(path, pop):
+def deck_sizes(path, pop, prep=None):
     """Shape counts the generator uses to aim operations at shapes that exist (mostly)."""
     from pptx import Presentation
 
@@ -746,8 +1087,12 @@ def deck_sizes(path, pop):
         types = [[raw_key(raw_ph(e))[0] for e in ph_sps(l._element.cSld.spTree)[0]] for l in lays]
         nmp = [r.target_part for r in prs.part.rels.values() if r.reltype.endswith("/notesMaster")]
         nm = [raw_key(raw_ph(e))[0] for e in ph_sps(nmp[0]._element.cSld.spTree)[0]] if nmp else ["hdr", "dt", "sldImg", "body", "ftr", "sldNum"]
-        _SIZES[key] = (types, len(ph_sps(prs.slide_masters[0]._element.cSld.spTree)[0]), nm, len(prs.slides))
-    types, nmaster, nm, nslides = _SIZES[key]
+        # a slide part related to another slide part is written when the first of them is reached: the write order
+        # of the model (order of the presentation part's relationships) does not hold, no save steps on such a deck
+        xl = any(r2.reltype.endswith("/slide") and not r2.is_external for r in prs.part.rels.values() if r.reltype.endswith("/slide") and not r.is_external
+                 for r2 in r.target_part.rels.values())
+        _SIZES[key] = (types, len(ph_sps(prs.slide_masters[0]._element.cSld.spTree)[0]), nm, len(prs.slides), xl)
+    types, nmaster, nm, nslides, xl = _SIZES[key]
     types = [list(t) for t in types]
     pop = pop or {}
     ptypes = lambda specs: [(sp.get("type") or "obj") for sp in specs if sp.get("ph", True)]
@@ -759,20 +1104,24 @@ def deck_sizes(path, pop):
         nm = ptypes(pop["nm"])
     return {"types": types, "layout": [len(t) for t in types],
             "clone": [len([x for x in t if x not in Oracle.LATENT]) for t in types],
-            "master": nmaster, "notes": len([x for x in nm if x in Oracle.NOTES]), "nm": len(nm), "slides": nslides}
+            "master": nmaster, "notes": len([x for x in nm if x in Oracle.NOTES]), "nm": len(nm),
+            "slides": nslides + (len(prep.get("add", [])) - len(prep.get("unlist", [])) if prep else 0), "slides0": nslides,
+            "save_ok": not xl}
 
 
 _SIZES = {}
 
 
-def gen_ops(rng, sizes, focus, n, malformed=False):
-    """A history; slide indices refer to positions in prs.slides (existing slides come first).
-    Shape indices are aimed at shapes that should exist; one in ten is deliberately off."""
+def gen_ops(rng, sizes, focus, n, malformed=False, deck_ops=0.0, save_ok=True):
+    """A history; slide indices refer to positions in prs.slides.  Shape indices are aimed at shapes that
+    should exist; one in ten is deliberately off.  deck_ops is the share of steps that delete a slide
+    (R: drop_rel + p:sldId, U: the p:sldId only; first / middle / last positions alike, slides the deck
+    brought along included) or save and re-open (S)."""
     nlayouts = len(sizes["layout"])
     ops = []
-    new = {}              # position of a slide added by this history -> estimated shape count
-    notes = set()
-    count = sizes["slides"]
+    # one entry per position of prs.slides: None for a slide the deck brought along (opaque), else the
+    # estimated shape count and whether it has a notes slide
+    pos = [None] * sizes["slides"]
 
     def pick(k):
         if k <= 0 or rng.random() < 0.1:
@@ -781,20 +1130,37 @@ def gen_ops(rng, sizes, focus, n, malformed=False):
 
     for step in range(n):
         r = rng.random()
+        new = [i for i, e in enumerate(pos) if e is not None]
+        if pos and rng.random() < deck_ops:
+            q = rng.random()
+            if q < 0.3 and save_ok:
+                ops.append("S")
+                continue
+            i = rng.choice([0, len(pos) - 1, rng.randrange(len(pos)), rng.randrange(len(pos))])
+            if malformed and rng.random() < 0.2:
+                i = len(pos) + rng.randrange(2)
+            ops.append("%s %d" % ("R" if q < 0.85 else "U", i))
+            if i < len(pos):
+                del pos[i]
+            if rng.random() < 0.6:
+                l = focus if rng.random() < 0.6 else rng.randrange(nlayouts)
+                ops.append("A %d" % l)
+                pos.append({"n": sizes["clone"][l], "notes": False})
+            continue
         if step == 0 or r < 0.3 or not new:
             l = focus if rng.random() < 0.8 else rng.randrange(nlayouts)
             if malformed and rng.random() < 0.15:
                 l = nlayouts + rng.randrange(3)
             ops.append("A %d" % l)
             if l < nlayouts:
-                new[count] = sizes["clone"][l]
-                count += 1
+                pos.append({"n": sizes["clone"][l], "notes": False})
             continue
-        s = rng.choice(sorted(new))
+        s = rng.choice(new)
+        e = pos[s]
         tgt = s
         if malformed and rng.random() < 0.15:
-            tgt = count + rng.randrange(3)
-        b = pick(new[s])
+            tgt = len(pos) + rng.randrange(3)
+        b = pick(e["n"])
         if r < 0.42:
             a = rng.randrange(4)
             ops.append("E s %d %d S %d %d" % (tgt, b, a, rand_value(rng, a, malformed)))
@@ -803,27 +1169,27 @@ def gen_ops(rng, sizes, focus, n, malformed=False):
             ops.append("E s %d %d R %s" % (tgt, b, " ".join(str(ord(c)) for c in name)))
         elif r < 0.58:
             ops.append("E s %d %d D" % (tgt, b))
-            if tgt == s and b < new[s]:
-                new[s] -= 1
+            if tgt == s and b < e["n"]:
+                e["n"] -= 1
         elif r < 0.61:
             ops.append("X %d %d %d %d %d" % (tgt, 914400, 914400, 1828800, 457200))
             if tgt == s:
-                new[s] += 1
+                e["n"] += 1
         elif r < 0.68:
             lsrc = focus if rng.random() < 0.7 else rng.randrange(nlayouts)
             i = pick(sizes["layout"][lsrc])
-            if rng.random() < 0.6 and i < len(sizes["types"][lsrc]) and new[s] > 0:
+            if rng.random() < 0.6 and i < len(sizes["types"][lsrc]) and e["n"] > 0:
                 # aim a collision: give an existing shape the name the clone would get by default
                 base = meta()["basename_slide"].get(sizes["types"][lsrc][i])
                 if base:
                     if rng.random() < 0.3:
                         base = meta()["vertical_prefix"] + base
                     for k in range(rng.choice([1, 1, 2, 3])):
-                        if k < new[s]:
-                            ops.append("E s %d %d R %s" % (tgt, k, " ".join(str(ord(c)) for c in "%s %d" % (base, new[s] + 1 + k + rng.choice([0, 0, 0, 1])))))
+                        if k < e["n"]:
+                            ops.append("E s %d %d R %s" % (tgt, k, " ".join(str(ord(c)) for c in "%s %d" % (base, e["n"] + 1 + k + rng.choice([0, 0, 0, 1])))))
             ops.append("P %d %d %d" % (tgt, lsrc, i))
             if tgt == s:
-                new[s] += 1
+                e["n"] += 1
         elif r < 0.74:
             a = rng.randrange(4)
             ops.append("E l %d %d S %d %d" % (focus, pick(sizes["layout"][focus]), a, rand_value(rng, a, malformed)))
@@ -835,20 +1201,33 @@ def gen_ops(rng, sizes, focus, n, malformed=False):
         elif r < 0.9:
             ops.append("N %d" % tgt)
             if tgt == s:
-                notes.add(s)
+                e["notes"] = True
         elif r < 0.95:
             a = rng.randrange(4)
-            if not notes:
+            noted = [i for i in new if pos[i]["notes"]]
+            if not noted:
                 ops.append("N %d" % s)
-                notes.add(s)
+                e["notes"] = True
             else:
-                ops.append("E n %d %d %s" % (rng.choice(sorted(notes)), pick(sizes["notes"]), rng.choice(
+                ops.append("E n %d %d %s" % (rng.choice(noted), pick(sizes["notes"]), rng.choice(
                     ["S %d %d" % (a, rand_value(rng, a, malformed)), "S %d %d" % (a, rand_value(rng, a, malformed)), "C", "D",
                      "R " + " ".join(str(ord(c)) for c in "Notes Placeholder 2")])))
         else:
             a = rng.randrange(4)
             ops.append("E k 0 %d %s" % (pick(sizes["nm"]), rng.choice(["S %d %d" % (a, rand_value(rng, a, malformed)), "C", "D"])))
     return ops
+
+
+def gen_prep(rng, nlayouts, n0):
+    """An irregular start deck: extra slides, part names out of order and with gaps, unlisted related slides."""
+    add = [rng.randrange(nlayouts) for _ in range(rng.randint(0 if n0 >= 2 else 2, 4))]
+    n = n0 + len(add)
+    pool = list(range(1, n + 1 + rng.choice([0, 2, 5])))
+    rng.shuffle(pool)
+    prep = {"add": add, "names": pool[:n]}
+    if n and rng.random() < 0.4:
+        prep["unlist"] = sorted(rng.sample(range(n), rng.choice([1, 1, 2]) if n > 1 else 1))
+    return prep
 
 
 def corpus_case(path, rng):
@@ -926,6 +1305,17 @@ def gen_cases(tier, rng):
     cases.append(("directed", {"deck": "default", "pop": {
         "nm": [ph_spec(2, "sldImg", 2, off=(1, 2)), ph_spec(3, "body", 3, ext=(3, 4)), ph_spec(4, "sldNum", 5)]},
         "ops": ["A 0", "N 0", "E n 0 0 S 2 5", "E n 0 1 S 0 6", "E n 0 2 S 3 7", "E n 0 2 S 0 -27273042329601", "E k 0 0 S 3 9", "E k 0 1 S 0 2", "A 0", "N 1"]}))
+    # directed slide-list histories: delete the first / a middle / the last slide (relationship dropped, or only
+    # the p:sldId removed), add again, with and without saving and re-opening in between and at the end
+    for where in (0, 1, 2):
+        for rm in ("R", "U"):
+            for tail in ([], ["S"], ["S", "A 1", "E s 3 0 S 0 7"]):
+                cases.append(("slide-list", {"deck": "default", "ops": ["A 0", "A 1", "A 5", "E s 1 0 S 1 9", "%s %d" % (rm, where), "A 3", "E s 2 1 S 2 77",
+                                                                   "N 2", "A 1"] + tail}))
+    cases.append(("slide-list", {"deck": "default", "ops": ["A 0", "S", "A 1", "N 1", "S", "A 5", "R 1", "S", "A 2", "R 2", "R 0", "A 0", "A 0"]}))
+    cases.append(("slide-list", {"deck": "default", "ops": ["A 0", "A 1", "R 0", "R 0", "A 5", "R 0", "R 0", "U 0", "A 1", "S", "A 1"]}))
+    cases.append(("slide-list", {"deck": "default", "prep": {"add": [0, 1, 5], "names": [3, 1, 7]}, "ops": ["A 0", "R 1", "A 1", "N 2", "S", "A 6"]}))
+    cases.append(("slide-list", {"deck": "default", "prep": {"add": [0, 1, 5, 6], "names": [9, 2, 4, 3], "unlist": [3]}, "ops": ["A 0", "A 1", "R 0", "A 1"]}))
     n_gen = 500 if tier == "quick" else 5000
     for i in range(n_gen):
         pop = {}
@@ -937,7 +1327,24 @@ def gen_cases(tier, rng):
             pop["nm"] = gen_population(rng, all_types, rng.randint(0, 8), "nm")
         malformed = i % 6 == 5
         cases.append(("malformed" if malformed else "generated",
-                      {"deck": "default", "pop": pop, "ops": gen_ops(rng, deck_sizes("default", pop), li, rng.randint(4, 14), malformed)}))
+                      {"deck": "default", "pop": pop, "ops": gen_ops(rng, deck_sizes("default", pop), li, rng.randint(4, 14), malformed,
+                                                                    deck_ops=0.12 if i % 3 == 1 else 0.0)}))
+    # generated slide-list histories: every corpus deck that has slides and the default template, as they are and
+    # as irregular start decks (part names out of order / with gaps, unlisted related slides), a third of the
+    # steps deleting, unlisting or saving
+    with_slides = [p for p in corpus_files() if deck_sizes(p, None)["slides0"] >= 1]
+    n_sl = 160 if tier == "quick" else 1600
+    for i in range(n_sl):
+        path = "default" if i % 3 == 0 else with_slides[(i // 3 * 7 + i) % len(with_slides)]
+        base = deck_sizes(path, None)
+        prep = gen_prep(rng, len(base["layout"]), base["slides0"]) if i % 2 == 0 else None
+        case = {"deck": path, "ops": None}
+        if prep:
+            case["prep"] = prep
+        sizes = deck_sizes(path, None, prep)
+        case["ops"] = gen_ops(rng, sizes, rng.randrange(len(sizes["layout"])), rng.randint(5, 14), malformed=(i % 8 == 7),
+                              deck_ops=0.35, save_ok=sizes["save_ok"])
+        cases.append(("slide-list", case))
     # histories on corpus decks that bring their own notes master
     with_nm = [p for p in corpus_files() if b"notesMasters/" in deck_bytes(p)]
     for p in with_nm:
@@ -1037,6 +1444,10 @@ def run(ck, tier, rng):
     ck.dist["operations-raising"] = n_err
     for e in ("Key", "Index", "Value"):
         ck.dist["operations-raising-" + e] = sum(o.count("#err:%s@" % e) for o in impl_out)
+    for k, name in (("R", "delete-slide(drop_rel+sldId)"), ("U", "delete-slide(sldId-only)"), ("S", "save-and-reopen")):
+        ck.dist["operations-" + name] = sum(1 for _, c in kept for o in c["ops"] if o.split(" ")[0] == k)
+    ck.dist["add_slide-after-a-deletion"] = sum(1 for _, c in kept for i, o in enumerate(c["ops"])
+                                                if o[0] == "A" and any(p[0] in "RU" for p in c["ops"][:i]))
     concrete_before = len(ck.violations)
     diffs = 0
     tables = None
@@ -1078,8 +1489,8 @@ def run(ck, tier, rng):
     any_concrete = any(v["concrete"] for v in ck.violations)
     ck.broken_build(oracle_found_concrete=any_concrete)
     return ck.finish(
-        rule="every layout of each of the %d decks under /repo (one history per deck: add a slide from every layout, edits, repeated additions, notes slides) + %d directed layouts (each placeholder type x idx/orient/sz/xfrm variants, duplicated) + generated populations of master / one layout / notes master of the default template with histories of 4-14 operations (one in six with out-of-range indices and values) + histories on the decks that carry a notes master; non-trivial = the history created a slide with at least two placeholders or a notes slide with at least one"
-             % (len(corpus_files()), ck.dist.get("directed", 0)),
+        rule="every layout of each of the %d decks under /repo (one history per deck: add a slide from every layout, edits, repeated additions, notes slides) + %d slide-list histories (delete first / middle / last slide by drop_rel + p:sldId or p:sldId alone, add again, save and re-open in between; generated ones on every corpus deck with slides and on start decks with part names out of order / with gaps / with related unlisted parts; a third of the generated layout histories delete and save as well) + %d directed layouts (each placeholder type x idx/orient/sz/xfrm variants, duplicated) + generated populations of master / one layout / notes master of the default template with histories of 4-14 operations (one in six with out-of-range indices and values) + histories on the decks that carry a notes master; non-trivial = the history created a slide with at least two placeholders or a notes slide with at least one"
+             % (len(corpus_files()), ck.dist.get("slide-list", 0), ck.dist.get("directed", 0)),
         trusted_base=TB, assumptions=ASSUME,
         extra={"correspondence_diffs": diffs, "exhaustive": False, "skipped_outside_model": skipped,
                "partial_maps_today": partial, "histories": len(kept)},
@@ -1115,7 +1526,7 @@ def translate_quiet():
 
 CLAIM = {
     "tech": "Coq proof over a Gallina model of slide/notes creation from layouts (placeholder cloning, naming, inherited geometry) generic in the literal tables, which a translator re-extracts from the source each run; extracted-model correspondence on every corpus layout and generated layouts + independent oracle",
-    "text": "54 theorems closed under the global context, for ANY tables and ANY deck state: the new slide's placeholders mirror the layout's non-latent ones (type, idx, orientation, size, order), names and ids are fresh (the naming loop's fuel is proved sufficient), geometry is inherited from the first layout placeholder with the same idx until overridden: an accepted assignment to one dimension of a slide, layout or notes-slide placeholder (_set_dimension, modelled with its evaluation order) makes that dimension report the assigned value while the other three report exactly what they reported and everything else in the deck is unchanged, under the exact guard proved equivalent to acceptance (value in range, inherited lookups do not raise, inherited values in range); a refused value or a raising lookup leaves the deck untouched; a dimension with nothing to inherit reads 0 exactly when its partner was written; master and notes-master placeholders keep the plain element setter; the slide is last and related to its layout, everything else is unchanged, notes slides mirror the notes master; the exact guard under which add_slide / the geometry getters raise KeyError is characterised from the regenerated tables (C13_partial_maps_exact). The model is tied to slide.py / shapetree.py / placeholder.py by running histories on all 177 corpus layouts and ~500 generated layout populations on the real library and on the extracted model (0 diffs), and by an oracle on raw lxml.",
-    "note": "tables (latent types, base names, layout->master type map, txBody types, templates) come from tx/tx_c13.py (trusted to transcribe, fail-closed); non-sp placeholders on layouts, shapes inside groups and damaged packages (missing_rels_item.pptx) are outside the model; duplicate idx within one layout is the property's side condition (first match wins, proved and exercised).",
+    "text": "71 theorems closed under the global context. Slide list (model/PlaceholderPkg.v: part identity vs part name, relationship table, p:sldIdLst), for ALL histories of additions, edits, both deletion recipes and failures inside a session: the new slide is the last entry and designates a new part under a part name, rId and slide id nobody uses, every other entry keeps designating the same part with the same state, no part is listed twice, no two reachable parts share a name, and saving + re-opening returns the same slide list (C13_pkg_add_slide_last_new, _remove_frame, _edit_frame, _history_invariant, _history_save); across sessions the same as long as no related slide part is unlisted (C13_pkg_history_all_sessions), with the witness that the condition is needed (C13_pkg_unlisted_collision_refuted). Slides, for ANY tables and ANY deck state: the new slide's placeholders mirror the layout's non-latent ones (type, idx, orientation, size, order), names and ids are fresh (the naming loop's fuel is proved sufficient), geometry is inherited from the first layout placeholder with the same idx until overridden: an accepted assignment to one dimension of a slide, layout or notes-slide placeholder (_set_dimension, modelled with its evaluation order) makes that dimension report the assigned value while the other three report exactly what they reported and everything else in the deck is unchanged, under the exact guard proved equivalent to acceptance (value in range, inherited lookups do not raise, inherited values in range); a refused value or a raising lookup leaves the deck untouched; a dimension with nothing to inherit reads 0 exactly when its partner was written; master and notes-master placeholders keep the plain element setter; the slide is last and related to its layout, everything else is unchanged, notes slides mirror the notes master; the exact guard under which add_slide / the geometry getters raise KeyError is characterised from the regenerated tables (C13_partial_maps_exact). The model is tied to slide.py / shapetree.py / placeholder.py by running histories on all 177 corpus layouts and ~500 generated layout populations on the real library and on the extracted model (0 diffs), and by an oracle on raw lxml.",
+    "note": "slide-list histories run on every corpus deck with slides and on irregular start decks (part names out of order, gaps, related unlisted parts); tables (latent types, base names, layout->master type map, txBody types, templates) come from tx/tx_c13.py (trusted to transcribe, fail-closed); non-sp placeholders on layouts, shapes inside groups and damaged packages (missing_rels_item.pptx) are outside the model; duplicate idx within one layout is the property's side condition (first match wins, proved and exercised).",
     "ref": "6/C13",
 }
